@@ -858,6 +858,62 @@ func streamC09(c *Ctx) {
 				return
 			}
 		}
+		// early stops, systematically: ForEach with a consumer that stops after k documents (k = 1..n) over sorts on one and two
+		// keys in both directions, with an index on the first sort key, on the second, on both or on none, with and without
+		// criteria and windows: the visited sequence is the prefix of FindAll, and the consumer is not called again
+		{
+			lines := []J{}
+			idxSets := [][]string{{}, {"a"}, {"b"}, {"a", "b"}}
+			for ci, is := range idxSets {
+				cn := fmt.Sprintf("es%d", ci)
+				lines = append(lines, opLine("createCollection", J{"coll": hx(cn)}))
+				for _, f := range is {
+					lines = append(lines, opLine("createIndex", J{"coll": hx(cn), "field": hx(f)}))
+				}
+				docs := []interface{}{}
+				for j, ab := range [][2]int64{{1, 5}, {2, 4}, {1, 3}, {3, 3}, {2, 1}, {1, 9}, {3, 0}} {
+					docs = append(docs, encDoc(map[string]interface{}{"_id": fixedId(j + 1), "a": ab[0], "b": ab[1]}))
+				}
+				lines = append(lines, opLine("insert", J{"coll": hx(cn), "docs": docs}))
+			}
+			grp := 0
+			sorts := [][]interface{}{{[]interface{}{hx("a"), 1}, []interface{}{hx("b"), 1}}, {[]interface{}{hx("a"), -1}, []interface{}{hx("b"), 1}}, {[]interface{}{hx("a"), 1}, []interface{}{hx("b"), -1}},
+				{[]interface{}{hx("b"), 1}, []interface{}{hx("a"), 1}}, {[]interface{}{hx("a"), 1}, []interface{}{hx("_id"), -1}}, {[]interface{}{hx("a"), 1}}, {[]interface{}{hx("b"), -1}}}
+			for ci := range idxSets {
+				cn := fmt.Sprintf("es%d", ci)
+				for si, srt := range sorts {
+					for v := 0; v < 3; v++ {
+						q := J{"coll": hx(cn), "sort": srt}
+						if v == 1 {
+							q["crit"] = J{"cmp": []interface{}{"ge", hx("a"), J{"lit": encValue(int64(2))}}}
+						}
+						if v == 2 {
+							q["skip"] = 1
+							q["limit"] = 4
+						}
+						grp++
+						lines = append(lines, opLine("findAll", J{"q": q, "grp": grp}), opLine("count", J{"q": q, "grp": grp}), opLine("findFirst", J{"q": q, "grp": grp}))
+						for k := 1; k <= 6; k++ {
+							if (k+si+v)%2 == 0 || k <= 2 {
+								lines = append(lines, opLine("forEach", J{"q": q, "grp": grp, "stopAfter": k}))
+							}
+						}
+					}
+				}
+			}
+			im.Reset()
+			impl := make([]string, len(lines))
+			for i, ln := range lines {
+				impl[i] = im.Exec(ln, -1, false).Line
+			}
+			c.Count("early-stop-cells")
+			// single-key sorts on a have ties: the order inside a tie class is not determined, but ForEach and FindAll of one
+			// query run the same plan on the same store, so they are compared exactly all the same
+			if !c09SelfRelative(c, lines, impl, make([]bool, len(lines)), be) {
+				im.Destroy()
+				return
+			}
+		}
 		// rounding neighbours, systematically: an indexed field holding integers that share a float64 image (the index key),
 		// times on both sides of 1970, floats next to them - every comparison with every one of them as literal, with and
 		// without a window; the derived reads must agree whatever the index returns as candidates
